@@ -202,3 +202,22 @@ func mutateJSON(doc []byte, r *sched.Rng, budget int) []jsonMutant {
 	}
 	return out
 }
+
+// mutateJSONDeep adds second-order mutants: a sample of first-order mutants is mutated again.
+func mutateJSONDeep(doc []byte, r *sched.Rng, first, second int) []jsonMutant {
+	out := mutateJSON(doc, r, first)
+	if second <= 0 || len(out) == 0 {
+		return out
+	}
+	n := len(out)
+	for k := 0; k < 12; k++ {
+		base := out[10+r.Intn(n-10)%n]
+		if len(base.Data) == 0 {
+			continue
+		}
+		for _, m2 := range mutateJSON(base.Data, r, second) {
+			out = append(out, jsonMutant{base.Label + " + " + m2.Label, m2.Data})
+		}
+	}
+	return out
+}
